@@ -174,7 +174,7 @@ def build_python(spec: ModelSpec, share_ops=True):
             for inp, m in e.var_map.items():
                 for oname in spec.edge_tpls[e.template].ops:
                     if inp in spec.ops[oname].vars:
-                        attrs[f"{oname}/{inp}"] = m
+                        attrs[f"{e.template}/{oname}/{inp}"] = m
         return (e.src, e.tgt, etpls[e.template] if e.template else None, attrs)
 
     depth = spec.depth()
@@ -218,6 +218,9 @@ def build_python(spec: ModelSpec, share_ops=True):
         if not prefix:
             return t
         k = len(prefix) + 1
-        return (t[0][k:], t[1][k:], t[2], t[3])
+        # string-valued attributes other than 'source' are node-variable paths: relative to the level as well
+        attrs = {a: (v[k:] if isinstance(v, str) and v != 'source' and v.startswith(prefix + '/') else v)
+                 for a, v in t[3].items()}
+        return (t[0][k:], t[1][k:], t[2], attrs)
 
     return build_level('', list(spec.nodes), spec.name)
